@@ -280,7 +280,7 @@ var hostileStatusMsgs = []string{
 }
 
 // msgs that HTTP/1.1 headers cannot carry faithfully (known finding F-C02-1)
-var headerHostileMsgs = []string{" leading blank", "trailing blank ", "line\nfeed", "carriage\rreturn", "crlf\r\nInjected: yes", "nul\x00byte", "\t", " "}
+var headerHostileMsgs = []string{" leading blank", "trailing blank ", "line\nfeed", "carriage\rreturn", "crlf\r\nInjected: yes", "nul\x00byte", "\t", " ", "\x01ctl", "del\x7f", "bell\x07mid"}
 
 var invalidUTF8Msgs = []string{"bad\xffutf8", "\xc3\x28", "ok then \xe2\x82", "\xff\xfe\xfd"}
 
